@@ -346,8 +346,22 @@ func isRapidPanic(v interface{}) bool {
 	return t.PkgPath() == "pgregory.net/rapid"
 }
 
+// writeCaseFile stores the case that is about to run, so that the driver can name it when
+// the whole process dies (a panic in a goroutine of the code under test cannot be recovered).
+func (r *runner) writeCaseFile(c *Ctx) {
+	p := os.Getenv("VERIF_CASEFILE")
+	if p == "" {
+		return
+	}
+	doc := replayDoc{Property: r.u.Property, Unit: r.u.Name, Tag: "crash", Msg: "process died while running this case", Case: c.CaseJSON()}
+	if data, err := json.Marshal(&doc); err == nil {
+		_ = os.WriteFile(p, data, 0o644)
+	}
+}
+
 // runCase runs body on one case; converts foreign panics to failures tagged "panic".
 func (r *runner) runCase(c *Ctx, body func(*Ctx)) (failed bool) {
+	r.writeCaseFile(c)
 	defer func() {
 		v := recover()
 		switch x := v.(type) {
